@@ -21,6 +21,7 @@ func main() {
 	evdir := flag.String("evidence", "", "evidence file (default /verif/evidence/<id>.json; 'none' to skip)")
 	findings := flag.String("findings", "/verif/known_findings.txt", "known findings file")
 	facts := flag.String("facts", "", "debug: dump branch facts for the named function")
+	selftest := flag.String("selftest", "/verif/selftest", "directory of self-test patches (thorough tier)")
 	list := flag.Bool("list", false, "list registered properties")
 	inventory := flag.String("inventory", "", "debug: comma-separated entry points; print the reachable panic-site inventory")
 	stop := flag.String("stop", "", "debug: comma-separated functions not to descend into (with -inventory)")
@@ -45,6 +46,21 @@ func main() {
 	seed := 0
 	if s := os.Getenv("VERIF_SEED"); s != "" {
 		seed, _ = strconv.Atoi(s)
+	}
+	if *tier == "thorough" && *prop != "" && *prop != "all" {
+		pr := core.Lookup(*prop)
+		if pr == nil {
+			fmt.Fprintf(os.Stderr, "unknown property %q\n", *prop)
+			os.Exit(2)
+		}
+		ev := *evdir
+		if ev == "" {
+			ev = "/verif/evidence/" + *prop + ".json"
+		}
+		if ev == "none" {
+			ev = ""
+		}
+		os.Exit(core.Thorough(*repo, pr, seed, ev, *findings, *selftest, start))
 	}
 	p, err := core.Load(*repo)
 	if err != nil {
